@@ -29,6 +29,9 @@ type c12State struct {
 	csiFn       *FuncInfo
 
 	setCellInner, setCellOuter int
+	seen                       map[string]bool
+	ctxCache                   map[*Emission][]c12GuardCtx
+	frameReach                 map[string]bool
 }
 
 func runC12(c *Ctx) {
@@ -46,11 +49,14 @@ func runC12(c *Ctx) {
 		"sixel placement (mode 8452, cursor movement after an image) and pixel contents",
 		"enable-phase modes that do not change what is displayed (1004 focus events, 2048)",
 	}
-	c.expect("C12.a", 60)
-	c.expect("C12.b", 30)
-	c.expect("C12.c", 30)
-	c.expect("C12.d", 4)
-	c.expect("C12.e", 60)
+	// Instance counts depend on how the code is factored (ten Printf sites or one helper, two guards or one
+	// merged guard), so the numeric minima are deliberately low; non-vacuity is enforced semantically by
+	// coverage(): every kind of sequence the renderer needs and every link of the chains must have been found.
+	c.expect("C12.a", 12)
+	c.expect("C12.b", 6)
+	c.expect("C12.c", 6)
+	c.expect("C12.d", 3)
+	c.expect("C12.e", 12)
 	c.expect("C12.f", 1)
 	c.Assume = append(c.Assume, "vaxis.RGBColor(r,g,b).Params() = [r,g,b] and IndexColor(i).Params() = [i] (colour constructors and Params are inverse; checked by C07/C18 tables, not here)", "OSC 8 parameter strings contain no ';' (the separator of the sequence)")
 	st := &c12State{c: c, lang: newC12Lang(c.P)}
@@ -71,9 +77,35 @@ func runC12(c *Ctx) {
 	st.draw()
 	st.coordChain()
 	st.widthAgreement()
+	st.coverage()
 	if os.Getenv("C12_LIST") != "" {
 		for _, o := range c.Obs {
 			fmt.Printf("%-10s %s\n      %s\n", o.Status, o.Key, o.Reason)
+		}
+	}
+}
+
+// coverage: semantic non-vacuity. Each entry names something that must have been recognised on any tree
+// on which the property can hold at all; a missing entry means a recogniser went blind (reported loudly).
+func (st *c12State) coverage() {
+	need := []struct{ rule, what string }{
+		{"C12.a", "cursor addressing (CUP)"},
+		{"C12.a", "cursor visibility set"},
+		{"C12.a", "cursor visibility reset"},
+		{"C12.a", "cursor style (DECSCUSR)"},
+		{"C12.a", "hyperlink open (OSC 8 with parameters)"},
+		{"C12.a", "hyperlink close (OSC 8 empty)"},
+		{"C12.a", "SGR"},
+		{"C12.e", "SGR for field Foreground"},
+		{"C12.e", "SGR for field Background"},
+		{"C12.e", "SGR attribute set"},
+		{"C12.e", "SGR attribute clear"},
+		{"C12.e", "SGR end-of-frame reset"},
+		{"C12.c", "reply to the primary device attributes query"},
+	}
+	for _, n := range need {
+		if !st.seen[n.what] {
+			st.c.undecided(n.rule, "coverage/"+n.what, 0, "no frame-phase (or start-up) sequence of this kind was recognised: the renderer cannot work without it, so the extractor no longer understands the code")
 		}
 	}
 }
